@@ -215,15 +215,14 @@ Proof.
   induction ms as [|m ms IH]; intros fuel H Hf.
   - cbn. destruct fuel; reflexivity.
   - apply Forall_cons_iff in H as [Hm Hs]. cbn [map concat] in *.
-    assert (Hne : exists b t, enc_msg m ++ concat (map enc_msg ms) = b :: t).
-    { unfold enc_msg. unfold put_bes at 1. cbn [put_be]. rewrite <- !app_assoc. cbn [app]. eauto.
-      destruct (put_be 7 _); cbn; eauto. }
-    destruct Hne as (b & t & Hbt).
     assert (Hlen : (16 <= length (enc_msg m))%nat).
     { unfold enc_msg. rewrite !app_length. unfold put_bes. rewrite !put_be_length. lia. }
     rewrite app_length in Hf.
     destruct fuel as [|fuel]; [lia|].
-    cbn [dec_msgs]. rewrite Hbt. rewrite <- Hbt.
+    cbn [dec_msgs].
+    destruct (enc_msg m ++ concat (map enc_msg ms)) as [|b t] eqn:Hbt.
+    { exfalso. apply (f_equal (@length N)) in Hbt. rewrite app_length in Hbt. cbn in Hbt. lia. }
+    rewrite <- Hbt.
     rewrite split_enc_msg by exact Hm. rewrite dec_enc_msg_body by exact Hm.
     rewrite IH by (try exact Hs; lia). reflexivity.
 Qed.
